@@ -6,6 +6,7 @@ CONSTANTS
  MaxAttempts = 3
  MaxFaults = 4
  CanonOrder = FALSE
+ ErrCodes = {3}
  MaxDown = 2
  DevRetryOnTimeout = FALSE
  DevDropFailed = FALSE
